@@ -130,6 +130,67 @@ def check_request(s, rec, seen_bt):
     return None
 
 
+def maxrep_histories(rng, env, n):
+    """the real sync and async SnmpSession: histories of getbulk(oid), getbulk(oid, N), fetch(oid) on one session; every
+    GetBulk request must carry the max-repetitions of ITS call (the override, else the session default) and
+    non-repeaters 0. Yields (description, problem-or-None)."""
+    from gufo.snmp import SnmpVersion
+    peer = e2e.Peer("v2c")
+    for h in range(n):
+        default = rng.choice([1, 5, 20, 127, 128, 300])
+        calls = []
+        for _ in range(rng.randrange(2, 6)):
+            k = rng.random()
+            if k < 0.4:
+                calls.append(("getbulk", None))
+            elif k < 0.8:
+                calls.append(("getbulk", rng.choice([1, 2, 7, 50, 128, 255, 1000])))
+            else:
+                calls.append(("fetch", None))
+        want = [mr if mr is not None else default for _, mr in calls]
+        desc = f"default max_repetitions {default}, calls {[(c, m) for c, m in calls]}"
+        for mode in ("sync", "async"):
+            seen = []
+
+            def answer(req):
+                seen.append(req)
+                name = tuple(req["varbinds"][0][0]) if req.get("varbinds") else (1, 3)
+                return [peer.response(req, [ber.varbind(name, ber.ENDOFMIBVIEW)])]
+            if mode == "sync":
+                from gufo.snmp.sync_client import SnmpSession
+                conv = e2e.Conv(peer, env)
+                sess = SnmpSession("127.0.0.1", port=env.agent.port, community="public", version=SnmpVersion.v2c,
+                                   timeout=0.05, max_repetitions=default)
+                sess._sock = e2e.SockShim(conv, lambda op, req: answer(req))
+
+                def body():
+                    for c, mr in calls:
+                        it = sess.fetch("1.3.6.1.2.1") if c == "fetch" else (
+                            sess.getbulk("1.3.6.1.2.1", mr) if mr is not None else sess.getbulk("1.3.6.1.2.1"))
+                        for _ in it:
+                            pass
+                r = e2e.ncall(body)
+            else:
+                async def main(port):
+                    from gufo.snmp.async_client import SnmpSession
+                    async with SnmpSession("127.0.0.1", port=port, community="public", version=SnmpVersion.v2c,
+                                           timeout=1.0, max_repetitions=default) as sx:
+                        for c, mr in calls:
+                            it = sx.fetch("1.3.6.1.2.1") if c == "fetch" else (
+                                sx.getbulk("1.3.6.1.2.1", mr) if mr is not None else sx.getbulk("1.3.6.1.2.1"))
+                            async for _ in it:
+                                pass
+                r, _ = e2e.run_async(main, lambda dg: answer(peer.decode(dg)))
+            got = [q.get("max_repetitions") for q in seen if q.get("pdu_type") == 5]
+            nr = [q.get("non_repeaters") for q in seen if q.get("pdu_type") == 5]
+            if r[0] != "ok":
+                yield f"{mode}: {desc}", f"the calls failed with {r[1]}"
+            elif got != want or any(nr):
+                yield f"{mode}: {desc}", f"the GetBulk requests carry max-repetitions {got} (non-repeaters {nr}), asked for {want}"
+            else:
+                yield f"{mode}: {desc}", None
+
+
 def run(chk, model_ok=True):
     rng = random.Random(chk.seed)
     quick = chk.tier == "quick"
@@ -195,6 +256,12 @@ def run(chk, model_ok=True):
         if why and any(w in why for w in ("carries user", "engine id", "boots/time", "security flags", "failed with")):
             fail(f"{key}: {why}", f"# client {key}")
     chk.coverage["client_runs"] = n_cli
+    n_mr = 0
+    for desc, why in maxrep_histories(rng, env, 6 if quick else 200):
+        n_mr += 1
+        if why:
+            fail(f"{desc}: {why}", f"# {desc}")
+    chk.coverage["maxrep_histories"] = n_mr
     # the buffer pool on its own: programs of acquire / write / drop with several handles out at once; every
     # buffer handed out must be empty (oracle), and the run must agree with Model/Pool.lean (correspondence)
     from vlib import streams
